@@ -102,6 +102,8 @@ where
                 handles.push(sc.spawn(move || {
                     let mut evs: Vec<(u64, Value)> = Vec::new();
                     for _ in 0..ops_per_thread {
+                        let c = trng.below(100);
+                        let quantify = c >= 92 && F::HAS_QUANT && !F::HAS_ZOPS;
                         // pick operands (cloned handles) under the table lock
                         let (ids, fs): (Vec<usize>, Vec<F>) = {
                             let mut t = table.lock().unwrap();
@@ -110,17 +112,22 @@ where
                             let k = 3;
                             // mostly a small hot set, so that identical operations repeat
                             let hot = live.len().min(6);
-                            let ids: Vec<usize> = (0..k)
+                            let mut ids: Vec<usize> = (0..k)
                                 .map(|_| if trng.chance(2, 3) { live[trng.below(hot)] } else { live[trng.below(live.len())] })
                                 .collect();
+                            if quantify {
+                                // the variable set of a quantification: one of the variable
+                                // handles (slots 0..n-1, never dropped)
+                                ids[2] = trng.below(n as usize);
+                            }
                             for &i in &ids {
                                 t.inuse[i] += 1;
                             }
                             let fs = ids.iter().map(|&i| t.slots[i].as_ref().unwrap().clone()).collect();
                             (ids, fs)
                         };
-                        let c = trng.below(100);
                         let mut used = 2;
+                        let mut argv: Option<Vec<usize>> = None;
                         let (opname, extra, r): (String, Value, Option<Result<oxidd::util::AllocResult<F>, String>>) =
                             if c < 50 {
                                 let op = BIN_OPS[trng.below(8)];
@@ -147,11 +154,21 @@ where
                             } else if F::HAS_ZOPS {
                                 let op = ["union", "intsec", "diff"][trng.below(3)];
                                 (op.to_string(), json!({}), Some(catch(|| fs[0].zbin(op, &fs[1]))))
+                            } else if quantify {
+                                let q = ["exists", "forall", "unique"][trng.below(3)];
+                                if trng.chance(1, 2) {
+                                    argv = Some(vec![ids[0], ids[2]]);
+                                    (q.to_string(), json!({}), Some(catch(|| fs[0].quant(q, &fs[2]))))
+                                } else {
+                                    used = 3;
+                                    let op = BIN_OPS[trng.below(8)];
+                                    (format!("apply_{q}"), json!({"bop": op}), Some(catch(|| fs[0].apply_quant(q, op, &fs[1], &fs[2]))))
+                                }
                             } else {
                                 let op = BIN_OPS[trng.below(8)];
                                 (op.to_string(), json!({}), Some(catch(|| bin_call(op, &fs[0], &fs[1]))))
                             };
-                        let args: Vec<usize> = ids[..used.min(ids.len())].to_vec();
+                        let args: Vec<usize> = argv.unwrap_or_else(|| ids[..used.min(ids.len())].to_vec());
                         match (opname.as_str(), r) {
                             ("clone", _) => {
                                 let f = fs[0].clone();
@@ -167,7 +184,7 @@ where
                                 // operation in flight uses
                                 let mut t = table.lock().unwrap();
                                 let live: Vec<usize> = (0..t.slots.len())
-                                    .filter(|&i| t.slots[i].is_some() && t.inuse[i] == 0)
+                                    .filter(|&i| t.slots[i].is_some() && t.inuse[i] == 0 && i >= n as usize)
                                     .collect();
                                 if live.len() > 6 {
                                     let a = live[trng.below(live.len())];
